@@ -256,6 +256,38 @@ def partial(ctx, consume, finish="exhaust"):
             ctx.prove(by3[o.pid] is o and by2.get(o.pid) is o, "same-object-while-listed", detail=f"pid {o.pid} after a pass that was {finish}d (consumed {n_first})")
 
 
+@harness("C04.unreadable", quick=[dict(attrs=a) for a in (None, ["name", "status"], [])])
+def unreadable(ctx, attrs):
+    """processes psutil can learn little about are processes like any other: one whose stat record cannot be opened (EACCES / EPERM:
+    hidepid, an LSM) -- so that its start time is unknown when the object is built -- and one whose status record lacks the optional
+    context-switch lines (old kernels, gVisor).  Every pass yields one object per listed PID, the very same object each time; with
+    attrs=[...] the info dict has exactly those keys; attrs=[] means all attributes, those the platform cannot provide left out."""
+    k = simk.Kernel(ctx)
+    simk.system_files(k)
+    t = Table(ctx, k)
+    t.change("a")
+    victim = ctx.choice("stat_unreadable", POOL + [None])
+    if victim is not None and t.present[victim]:
+        path = f"/proc/{victim}/stat"
+        k.files[path] = simk.oserr(ctx.choice("errno", [errno.EACCES, errno.EPERM]), path)
+    old = ctx.choice("status_without_ctxt_lines", POOL + [None])
+    if old is not None and t.present[old]:
+        st_ = k.files[f"/proc/{old}/status"]
+        k.files[f"/proc/{old}/status"] = "".join(l for l in st_.splitlines(True) if "ctxt_switches" not in l)
+    with k.installed():
+        passes = [ctx.guard("ascending-one-per-listed-pid", lambda: list(psutil.process_iter(attrs))) for _ in range(3)]
+    listed = t.listed()
+    for n, got in enumerate(passes):
+        ctx.prove([x.pid for x in got] == listed, "ascending-one-per-listed-pid", detail=f"pass {n}: {[x.pid for x in got]} vs {listed}; stat unreadable: {victim}")
+    for a, b, c in zip(*passes):
+        ctx.prove(a is b and b is c, "same-object-while-listed", detail=f"pid {a.pid} (stat unreadable: {victim})")
+    if attrs is not None:
+        every = set(psutil._as_dict_attrnames)
+        for x in passes[-1]:
+            want = set(attrs) if attrs else every - ({"num_ctx_switches"} if x.pid == old else set())
+            ctx.prove(set(x.info) == want, "attrs-info-keys", detail=f"pid {x.pid}: missing {sorted(want - set(x.info))} extra {sorted(set(x.info) - want)}")
+
+
 @harness("C04.torn_down", quick=[dict(attrs=a) for a in (None, ["name", "status"])])
 def torn_down(ctx, attrs):
     """a process that is being torn down while the table is iterated: it is still listed and its /proc/<pid>/stat still opens, but
